@@ -40,6 +40,8 @@ var scripts = []script{
 	{"throws", "throw new Error('bad'); ", "1", ""},
 	{"throws", "", "undefinedFn()", ""},
 	{"throws", "", "null.f", ""},
+	{"throws", "throw {toString: function(){ throw 1 }}; ", "1", ""},
+	{"throws", "throw {valueOf: function(){ return {} }, toString: function(){ return {} }}; ", "1", ""},
 	{"invalid", "{{{ nope ", "1", ""},
 	{"invalid", "var = ; ", "1", ""},
 	{"nonterminating", "while(true){} ", "1", ""},
@@ -54,6 +56,9 @@ var scripts = []script{
 	{"value", "", "({get a(){ var t = 0; for (var i = 0; i < 10; i++) { t += i; } return t; }, b: 2})", "map[a:45 b:2]"},
 	{"value", "var o = {}; Object.defineProperty(o, 'c', {enumerable: true, get: function(){ var u = 1; u = u + 1; u = u * 3; return u; }}); ", "o", "map[c:6]"},
 	{"nonterminating", "", "({get a(){ var q = 0; while(true){ q++ } }})", ""},
+	// time spent inside a function the engine offers (here: sleeping) counts, too
+	{"oversleep", "Env.sleep(900000000); ", "'late'", ""},
+	{"oversleep", "", "Env.sleep(900000000)", ""},
 }
 
 type tcase struct {
@@ -389,14 +394,14 @@ func main() {
 	hung := 0
 	for rp := 0; rp < reps && hung == 0; rp++ {
 		for _, sc := range scripts {
-			if disabled && sc.Family == "nonterminating" {
+			if disabled && (sc.Family == "nonterminating" || sc.Family == "oversleep") {
 				continue
 			}
 			for _, pos := range []string{"run", "condition", "action", "condition-or", "condition-and", "condition-not"} {
 				if strings.HasPrefix(pos, "condition") && sc.Family == "invalid" {
 					continue // an invalid condition is wrapped and would change the program; invalid is covered by run/action
 				}
-				if strings.HasPrefix(pos, "condition-") && (sc.Family == "value" || sc.Family == "slow") {
+				if strings.HasPrefix(pos, "condition-") && (sc.Family == "value" || sc.Family == "slow" || sc.Family == "oversleep") {
 					continue // the composite conditions are there for the failing families
 				}
 				settings := []string{"control", "default"}
@@ -430,6 +435,15 @@ func main() {
 						continue
 					}
 					switch sc.Family {
+					case "oversleep":
+						// the script is past its limit while it sleeps: it must be stopped (not waited
+						// for) and reported as failed.  Listed finding: a call into Go is never interrupted.
+						r.Count("oversleeping_scripts", 1)
+						if o.err == "" {
+							r.Violate("c14.native-call-not-interrupted", "a script that was past its limit inside Env.sleep was reported as success", wit)
+						} else if o.elapsed > limit+450*time.Millisecond && o.canaryLate < 200*time.Millisecond {
+							r.Violate("c14.native-call-not-interrupted", "a script past its limit inside Env.sleep was stopped only when the sleep was over", wit)
+						}
 					case "nonterminating":
 						if o.err == "" {
 							r.Violate("", "a script that ran past the timeout was reported as success", wit)
